@@ -239,6 +239,44 @@ theorem delineate_cycle_error (hc : 0 < g.ncols) {o nval : Int} {inlets : List I
   · exact absurd hstop (Bfs.layer_ne_nil_of_cycle _ _ inv o (by omega) hcyc (n + 1))
   · exact ⟨e', e, he⟩
 
+/-- **buffer-exhaustion errors are about room only**: if the area is returned for some buffer size, it is
+returned (the same cells) for every buffer size with one slot more than the area has cells -/
+theorem delineate_ok_of_room {o nval₀ nval : Int} {inlets A : List Int}
+    (h : delineateArea codes g o inlets nval₀ = .ok A) (hroom : (A.length : Int) + 1 ≤ nval) :
+    ∃ A', delineateArea codes g o inlets nval = .ok A' ∧ A'.Perm A := by
+  rcases delineateArea_cases (codes := codes) (g := g) o inlets nval₀ with
+    ⟨_, e⟩ | ⟨_, _, e⟩ | ⟨_, _, _, e⟩ | ⟨_, ho, hin, ⟨A₀, n, e, hstop, hne, hperm⟩ | ⟨e', e, _⟩⟩
+  · rw [e] at h; cases h
+  · rw [e] at h; cases h
+  · rw [e] at h; cases h
+  · rw [e] at h
+    cases h
+    have hlen := hperm.length_eq
+    rw [List.length_append] at hlen
+    have hroom' : (if 1 ≤ n then (1 : Int) else 0) +
+        ((Bfs.layersFrom (upStep codes g inlets) o 0 n).length : Int) ≤ nval - 1 := by
+      by_cases hn : 1 ≤ n
+      · rw [if_pos hn] at hlen ⊢; simp only [List.length_singleton] at hlen; omega
+      · rw [if_neg hn] at hlen ⊢; simp only [List.length_nil] at hlen; omega
+    obtain ⟨A', hA'⟩ := delineateArea_ok_of_room (codes := codes) (g := g) (nval := nval) n ho hin hstop hroom'
+    refine ⟨A', hA', ?_⟩
+    rcases delineateArea_cases (codes := codes) (g := g) o inlets nval with
+      ⟨_, e⟩ | ⟨_, _, e⟩ | ⟨_, _, _, e⟩ | ⟨_, _, _, ⟨A₁, n', e, hstop', hne', hperm'⟩ | ⟨e', e, _⟩⟩
+    · rw [e] at hA'; cases hA'
+    · rw [e] at hA'; cases hA'
+    · rw [e] at hA'; cases hA'
+    · rw [e] at hA'
+      cases hA'
+      have hnn : n' = n := by
+        rcases Nat.lt_trichotomy n' n with hlt | heq | hgt
+        · exact absurd hstop' (hne (n' + 1) (by omega) (by omega))
+        · exact heq
+        · exact absurd hstop (hne' (n + 1) (by omega) (by omega))
+      subst hnn
+      exact hperm'.trans hperm.symm
+    · rw [e] at hA'; cases hA'
+  · rw [e] at h; cases h
+
 /-- **guards and error kinds**: `nval < 1`, an outlet off the grid, an inlet off the grid are rejected in
 that order; otherwise the call returns an area or one of the three buffer-exhaustion errors — the
 model's own recursion bound is never what stops it -/
